@@ -35,7 +35,7 @@ func init() {
 
 func c05Depth(tier string) (int, int, int) {
 	if tier == "thorough" {
-		return 5, 2, 2
+		return 6, 3, 2
 	}
 	return 4, 2, 1
 }
